@@ -35,6 +35,18 @@ def showTok : Tok → String
   | .start r p => s!"S{r}@{p}"
   | .stop r p => s!"E{r}@{p}"
 
+/-- `find_first_tagged(tag)`: the pair found, or `_`. -/
+def findFirst (q : List QTok) (v : Pairs) (tag : Str) (m : M) : Option (String × M) := do
+  match ← v.findFirstTagged q tag with
+  | some i => pure ((← summary q i), m)
+  | none => pure ("_", m)
+
+/-- `find_tagged(tag)`: all pairs found, in order. -/
+def findAll (q : List QTok) (v : Pairs) (tag : Str) (m : M) : Option (String × M) := do
+  let is ← v.findTagged q tag
+  let ss ← is.mapM (summary q)
+  pure ("[" ++ ",".intercalate ss ++ "]", m)
+
 /-- One op: `none` = panic. Returns the observation and the new machine. -/
 def stepOp (q : List QTok) (input : Str) (m : M) (op : String) : Option (String × M) :=
   let n := q.length
@@ -98,6 +110,12 @@ def stepOp (q : List QTok) (input : Str) (m : M) (op : String) : Option (String 
       let (a, b) ← pairTokens q i
       pure ((← summary q i), { cur := .toks a b, stack := .pairs v' :: m.stack })
     | none => pure ("_", { m with cur := .pairs v' })
+  | "F0", .pairs v => findFirst q v "t".toList m
+  | "F1", .pairs v => findFirst q v "tag".toList m
+  | "F2", .pairs v => findFirst q v "é".toList m
+  | "W0", .pairs v => findAll q v "t".toList m
+  | "W1", .pairs v => findAll q v "tag".toList m
+  | "W2", .pairs v => findAll q v "é".toList m
   | "f", .pairs v => some ("f", { cur := .flat ⟨v.start, v.stop⟩, stack := m.cur :: m.stack })
   | "t", .pairs v => some ("t", { cur := .toks v.start v.stop, stack := m.cur :: m.stack })
   | "t", .flat v => some ("t", { cur := .toks v.start v.stop, stack := m.cur :: m.stack })
